@@ -20,3 +20,35 @@ def render(sets):
     for name, vals in sets.items():
         out.append("Definition %s : list (list N) := %s.\n" % (name, clist(("%s %s" % (cstr(v), comment(v)) for v in vals), per_line=1)))
     return "\n".join(out)
+
+
+def phf_set_any(src, name):
+    """a phf set wherever it is declared (module level or inside a function), whatever the spacing"""
+    m = re.search(r"static %s\s*:\s*phf::Set<&str>\s*=\s*phf_set!\s*\{(.*?)\};" % name, src, re.S)
+    if not m:
+        raise GenError("set %s not found" % name)
+    body = re.sub(r"//[^\n]*", "", m.group(1))
+    vals = re.findall(r'"([^"]+)"', body)
+    if not vals:
+        raise GenError("set %s is empty" % name)
+    return vals
+
+
+def three_children(can):
+    """the names in the arm of assure_mathml that asks for 3 children"""
+    m = re.search(r"fn assure_mathml\(.*?\n\t\}\n", can, re.S)
+    if not m:
+        raise GenError("assure_mathml not found")
+    a = re.search(r'((?:"[a-z]+"\s*\|\s*)*"[a-z]+")\s*=>\s*if n_children != 3', m.group(0))
+    if not a:
+        raise GenError("the 3-children arm of assure_mathml not found")
+    b = re.search(r'_\s*=>\s*if n_children != 2', m.group(0))
+    if not b:
+        raise GenError("the 2-children arm of assure_mathml not found")
+    return re.findall(r'"([a-z]+)"', a.group(1))
+
+
+def assure_sets(can, xpf):
+    return {"leaf_nodes": phf_set_any(xpf, "MATHML_LEAF_NODES"), "empty_elements": phf_set_any(can, "EMPTY_ELEMENTS"),
+            "all_mathml_elements": phf_set_any(can, "ALL_MATHML_ELEMENTS"), "fixed_children": phf_set_any(can, "ELEMENTS_WITH_FIXED_NUMBER_OF_CHILDREN"),
+            "three_children": three_children(can)}
